@@ -110,11 +110,43 @@ def pool_jobs(wd, tier):
     return jobs
 
 
+QF_CFG = """SPECIFICATION FairSpec
+CONSTANTS
+  NMsg = %d
+  StorePool = %d
+  MaxTries = 3
+  MaxFlush = 2
+  KF_FlushLive = %s
+  KF_FlushWipes = %s
+INVARIANT C12_NeverEarly
+INVARIANT C12_Known
+INVARIANT C12_FlushAttemptsAll
+PROPERTY C12_FlushReturns
+PROPERTY C01_EventuallySettled
+CHECK_DEADLOCK FALSE
+"""
+
+
+def flush_jobs(wd, tier):
+    """spec/QueueFlush.tla: flush() against a bounded store pool"""
+    jobs = []
+    for n, sp in ((3, 1), (3, 2), (3, 0)) + (((4, 1), (4, 2)) if tier != 'quick' else ()):
+        jobs.append({'name': 'QueueFlush %d msgs, store pool %d, two flush() calls: never early, nothing forgotten, flush returns (fairness)' % (n, sp),
+                     'module': 'QueueFlush', 'cfg': flow.write_cfg(wd, 'qf_%d_%d.cfg' % (n, sp), QF_CFG % (n, sp, 'FALSE', 'FALSE'))})
+    jobs.append({'name': 'deviation KF_FlushLive (D34 as found): TLC must find the message flushed again before its time', 'module': 'QueueFlush',
+                 'cfg': flow.write_cfg(wd, 'qf_kf34.cfg', QF_CFG % (3, 1, 'TRUE', 'FALSE')), 'expect_violation': ['C12_NeverEarly']})
+    jobs.append({'name': 'deviation KF_FlushWipes (D31 as found): TLC must find the message wiped off the timetable', 'module': 'QueueFlush',
+                 'cfg': flow.write_cfg(wd, 'qf_kf31.cfg', QF_CFG % (3, 1, 'FALSE', 'TRUE')), 'expect_violation': ['C12_Known', 'temporal']})
+    return jobs
+
+
 def run_queue_prop(prop, tier, mc_names, canaries, rule, trigger, text_assumptions, level='model_checking'):
     wd = workdir(prop)
     mc_jobs = qc_jobs(wd, mc_names)
     if prop in ('C01', 'C12'):
         mc_jobs += pool_jobs(wd, tier)
+    if prop == 'C12':
+        mc_jobs += flush_jobs(wd, tier)
     return flow.standard(
         prop, tier, mc_jobs, 'queue', 'Trace_Queue', 'Trace_Queue.cfg', canaries, level=level, rule=rule, trigger=trigger,
         assumptions=text_assumptions + [
